@@ -46,6 +46,26 @@ def padNumeric (sp : Spec) (nonneg : Bool) (body : Text) : Text :=
         let f := sp.fill.getD 32
         rep pre f ++ sign ++ body ++ rep post f
 
+/-- `Formatter::pad` (what `Unit::fmt` does with the symbol): precision truncates to that many
+characters, width pads with the fill character, default alignment LEFT; the `+` and `0`
+flags have no effect on strings -/
+def padStr (sp : Spec) (s : Text) : Text :=
+  let s := match sp.prec with
+    | some p => s.take p
+    | none => s
+  match sp.width with
+  | none => s
+  | some w =>
+    if w ≤ s.length then s
+    else
+      let pad := w - s.length
+      let (pre, post) := match sp.align with
+        | some .right => (pad, 0)
+        | some .center => (pad / 2, (pad + 1) / 2)
+        | _ => (0, pad)
+      let f := sp.fill.getD 32
+      rep pre f ++ s ++ rep post f
+
 /-- `Quantity::fmt` for a unit with a non-empty symbol: amount text, one space, symbol -/
 def qtyFmt (sp : Spec) (nonneg : Bool) (absAmountText symbol : Text) : Text :=
   padNumeric sp nonneg (absAmountText ++ [32] ++ symbol)
